@@ -20,6 +20,7 @@ type Req struct {
 	Authority string      `json:"authority"`
 	Path      string      `json:"path"`
 	Lines     [][2]string `json:"lines"` // client-supplied forwarding header lines
+	Scheme    string      `json:"scheme,omitempty"` // HTTP/2 only: the :scheme the client claims
 }
 
 type Script struct {
@@ -52,6 +53,10 @@ func gen(t *rapid.T) Script {
 	for i := 0; i < n; i++ {
 		r := Req{Path: fmt.Sprintf("/f%d", i)}
 		r.Authority = rapid.SampledFrom([]string{"example.com", "example.com:8443", "[2001:db8::1]:443", "UPPER.Example.COM", "a-b.c", "127.0.0.1:443", "xn--nxasmq6b.example"}).Draw(t, "auth")
+		if s.Proto == "h2" && rapid.IntRange(0, 3).Draw(t, "scheme") == 0 {
+			// a client may claim any :scheme; the connection is TLS all the same
+			r.Scheme = "http"
+		}
 		nl := rapid.IntRange(0, 5).Draw(t, "nl")
 		for j := 0; j < nl; j++ {
 			switch rapid.IntRange(0, 3).Draw(t, "kind") {
@@ -99,7 +104,7 @@ func exec(t *testing.T, s Script) *vstat.Violation {
 		defer cc.Close()
 		_ = cc.TLS.Proto
 		for _, r := range s.Reqs {
-			ex := cc.Do(rig.ReqSpec{Method: "GET", Path: r.Path, Authority: r.Authority, Headers: r.Lines})
+			ex := cc.Do(rig.ReqSpec{Method: "GET", Path: r.Path, Authority: r.Authority, Headers: r.Lines, Scheme: r.Scheme})
 			if ex.Err != "" || ex.Status != 200 {
 				errs = append(errs, fmt.Sprintf("%s: %d %s", r.Path, ex.Status, ex.Err))
 			}
@@ -161,6 +166,10 @@ func exec(t *testing.T, s Script) *vstat.Violation {
 		cl = append(cl, "peer:ipv4")
 	}
 	for _, r := range s.Reqs {
+		if r.Scheme == "http" {
+			nt = true
+			cl = append(cl, "h2-scheme-http")
+		}
 		for _, l := range r.Lines {
 			nt = true
 			cl = append(cl, "client-sent:"+http.CanonicalHeaderKey(l[0]))
@@ -184,6 +193,6 @@ func dedup(in []string) []string {
 
 func TestForwarding(t *testing.T) {
 	rig.Certs()
-	col.Mandatory("proto:h2", "proto:http/1.1", "proto:none", "peer:ipv6", "peer:ipv4", "client-sent:X-Forwarded-For", "client-sent:Forwarded", "client-sent:X-Forwarded-Host", "client-sent:X-Forwarded-Proto", "preserve:true", "preserve:false")
+	col.Mandatory("proto:h2", "proto:http/1.1", "proto:none", "peer:ipv6", "peer:ipv4", "client-sent:X-Forwarded-For", "client-sent:Forwarded", "client-sent:X-Forwarded-Host", "client-sent:X-Forwarded-Proto", "preserve:true", "preserve:false", "h2-scheme-http")
 	vstat.Run(t, vstat.Spec[Script]{Col: col, Quick: 2500, Thorough: 60000, Gen: gen, Exec: func(s Script) *vstat.Violation { return exec(t, s) }})
 }
